@@ -260,10 +260,18 @@ func cloneAttrs(a map[string]string) map[string]string {
 // panic (goroutines of the system under test still blocked) into an infra
 // result instead of a crash.
 func bubble(r *Run, f func()) {
+	if p := bubbleRecover(r, f); p != nil {
+		r.Infra("bubble panic: %v", p)
+	}
+}
+
+// bubbleRecover is bubble, but hands the panic value to the caller.
+func bubbleRecover(r *Run, f func()) (panicked any) {
 	defer func() {
 		if p := recover(); p != nil {
-			r.Infra("bubble panic: %v", p)
+			panicked = p
 		}
 	}()
 	synctest.Test(r.T, func(_ *testing.T) { f() })
+	return nil
 }
